@@ -46,8 +46,7 @@ def work(task):
     m = re.match(r"^stabilizer(\d+)-(.+)\.txt$", fname)
     case0 = {"file": fname}
     if not m:
-        p.evals += 1
-        p.violate("table-file-name " + fname, "file %s in the data directory does not follow stabilizer<n>-<connectivity>.txt" % fname, case0)
+        p.counters["files not following stabilizer<n>-<connectivity>.txt (not judged)"] += 1
         return p
     n, conn = int(m.group(1)), m.group(2)
     advertised = (n, conn) in oconn.EDGES
@@ -56,8 +55,7 @@ def work(task):
     K = lcorbit.NUM_ORBITS.get(n)
     p.counters["files advertised" if advertised else "files stray"] += 1
     if K is None:
-        p.evals += 1
-        p.violate("table-qubit-count " + fname, "table for unsupported qubit count %d" % n, case0)
+        p.counters["tables for qubit counts outside 2..6 (not judged)"] += 1
         return p
     if len(lines) != K:
         p.evals += 1
